@@ -31,7 +31,10 @@ FUNCTIONS = [(IR, "cont_moments_cv"), (VO, "vol_revolve"), (BR, "get_bright"),
              (BC, "get_bright_bc"), (BP, "get_bright_perc"),
              (CT, "correct_crosstalk"), (CT, "get_compensation_matrix")]
 BOUNDS = {
-    "quick": {"moments": "contours of 3..4 real vertices, any translation",
+    "quick": {"moments": "contours of 3..4 real vertices, any translation; "
+              "float32 / float16 contours: coordinate products must be "
+              "formed in 64 bit (dtype flow; numerical witness in the "
+              "replay)",
               "volume": "3..4 contour points, r >= 0, any scale > 0",
               "brightness": "1..2 events, 3 pixels each, integer images and "
               "backgrounds, any mask with >= 1 pixel, offset scalar / per "
@@ -62,6 +65,23 @@ def run_moments(eng, p):
     npx = SymNP()
     ns = shadow(IR, np=npx, abs=abs)
     f = ns["cont_moments_cv"]
+    if p.get("dtype"):
+        # a contour given in a narrow floating-point type: the products of
+        # pixel coordinates must be formed in 64 bit (the model's values are
+        # exact reals; the loss of precision is shown by the replay)
+        import vf.symnp as _snp
+
+        def hook(dt):
+            eng.fail("moments: coordinates of a %s contour are multiplied "
+                     "in %s (translation invariance is lost to rounding)"
+                     % (p["dtype"], dt))
+        _snp.NARROW_FLOAT_HOOK = hook
+        try:
+            f(SMat([[a, b] for a, b in zip(xs, ys)], p["dtype"]))
+        finally:
+            _snp.NARROW_FLOAT_HOOK = None
+        eng.reach()
+        return "ok"
     m1 = f(SMat([[a, b] for a, b in zip(xs, ys)], float))
     if p["law"] == "translation":
         tx, ty = eng.real("tx"), eng.real("ty")
@@ -352,6 +372,9 @@ def cases(tier, seed):
         for law in ("translation", "swap"):
             out.append(("moments n=%d %s" % (n, law),
                         dict(kind="moments", n=n, law=law)))
+    for dt in ("float32", "float16"):
+        out.append(("moments of a %s contour" % dt,
+                    dict(kind="moments", n=3, law="translation", dtype=dt)))
         for law in ("flip", "scale"):
             out.append(("volume n=%d %s" % (n, law),
                         dict(kind="volume", n=n, law=law)))
@@ -447,6 +470,23 @@ def replay(case, params, v):
                              "signal was %r (matrix %r)" % (ch, out,
                                                             s[ch - 1], cc))
         key = "correct_crosstalk|not-inverse"
+    elif k == "moments" and p.get("dtype"):
+        # numerical witness: a regular polygon far from the origin, given in
+        # the narrow type, against the same polygon at the origin in float64
+        n = max(p["n"], 8)
+        ang = np.linspace(0, 2 * np.pi, n, endpoint=False)
+        base = np.stack([12 * np.cos(ang), 7 * np.sin(ang)], axis=1)
+        f = real(IR, "cont_moments_cv")
+        m1 = f(base)
+        m2 = f((base + np.array([250., 250.])).astype(p["dtype"]))
+        for a in ("mu20", "mu02", "mu11"):
+            if m2 is None or not np.isclose(m1[a], m2[a], rtol=1e-5,
+                                            atol=1e-3):
+                fails.append("moments of a %s contour shifted by (250, 250): "
+                             "%s=%r, unshifted float64 contour: %r" % (
+                                 p["dtype"], a, None if m2 is None else
+                                 float(m2[a]), float(m1[a])))
+        key = "cont_moments_cv|narrow-float-contour|not-translation-invariant"
     elif k == "moments":
         n = p["n"]
         cont = np.array([[float(vals.get("x%d" % i, 0)),
